@@ -231,4 +231,4 @@ func genC19Hybrid(t *rapid.T) *Scenario {
 	return sc
 }
 
-func TestC19Hybrid(t *testing.T)       { runProp(t, "C19", genC19Hybrid, checkC19Hybrid) }
+func TestC19Hybrid(t *testing.T) { runProp(t, "C19", genC19Hybrid, checkC19Hybrid) }
